@@ -58,6 +58,7 @@ func (t *EventTimer) Reset(timeout time.Duration) {
 		return
 	}
 
+	verifOnReset(t, timeout)
 	t.timer.Reset(timeout)
 }
 
